@@ -69,8 +69,8 @@ def check(case):
 def components(tier, disabled):
     q = tier == "quick"
     return {
-        "lsig": {"strategy": semantic_program(profile="modelled", disabled=disabled, focus=["TypeEnum", "OnCompletion", "ApplicationID", "RekeyTo"], mode="lsig"),
+        "lsig": {"strategy": semantic_program(profile="modelled", disabled=disabled, max_stmts=(12 if q else 18), focus=["TypeEnum", "OnCompletion", "ApplicationID", "RekeyTo"], mode="lsig"),
                  "check": check, "examples": 1600 if q else 80000, "sample": lambda c, i: RCFG(c).text},
-        "app": {"strategy": semantic_program(profile="modelled", disabled=disabled, focus=["OnCompletion", "ApplicationID", "TypeEnum", "Sender"], mode="app"),
+        "app": {"strategy": semantic_program(profile="modelled", disabled=disabled, max_stmts=(12 if q else 18), focus=["OnCompletion", "ApplicationID", "TypeEnum", "Sender"], mode="app"),
                 "check": check, "examples": 1600 if q else 80000, "sample": lambda c, i: RCFG(c).text},
     }
